@@ -357,7 +357,7 @@ func dstTree(pl *refgen.Planner, t types.Type, inherited *types.Package, path st
 		if path != "" {
 			p = path + "." + f.Name()
 		}
-		df := &dstField{Path: p, Type: f.Type(), Accessible: f.Name() != "_" && (ast.IsExported(f.Name()) || owner == nil || owner.Path() == pl.Pkg.Path())}
+		df := &dstField{Path: p, Type: f.Type(), Accessible: f.Name() != "_" && (ast.IsExported(f.Name()) || f.Pkg() == nil || f.Pkg().Path() == pl.Pkg.Path())} // the member's OWN package decides (Go spec), not the owner type's
 		if _, isPtr := f.Type().(*types.Pointer); !isPtr {
 			if _, isStruct := f.Type().Underlying().(*types.Struct); isStruct {
 				df.Children = dstTree(pl, f.Type(), owner, p, depth+1)
